@@ -20,6 +20,10 @@ class Agg:
 
     def __init__(self, ck):
         self.ck, self.d = ck, {}
+        self.flushed = False
+        if not hasattr(ck, "aggs"):
+            ck.aggs = []
+        ck.aggs.append(self)
 
     def add(self, rule, func, construct, ok, detail, node=None):
         k = (rule, func, construct)
@@ -33,6 +37,9 @@ class Agg:
                 e["node"] = node
 
     def flush(self):
+        if self.flushed:
+            return
+        self.flushed = True
         for (rule, func, construct), e in self.d.items():
             det = ("%d scenario(s) agree with the reference model" % e["n"]) if e["ok"] else "; ".join(e["fails"])
             self.ck.ob(rule, func, construct, e["ok"], det, node=e["node"])
